@@ -151,7 +151,11 @@ impl Vm {
                 state_reads,
                 op_access.clone(),
                 op_gas_cost,
-                gas_limit,
+                // Compute programs may only spend what is left of the total.
+                GasLimit {
+                    total: gas_limit.total - gas_spent,
+                    ..gas_limit
+                },
             );
 
             #[cfg(essential_base_verif)]
